@@ -46,6 +46,8 @@ def gen_history(rng):
         tl = rng.choice([0, 1, 1, 2, 3, 8, 17, 64])
         tl = max(0, min(tl, nblocks - lba))
         if kind == "writesame":
+            if rng.random() < 0.12:
+                tl = rng.choice([255, 256, 65535, 65536, 65537, 70000, 131072]) if width == 16 else rng.choice([255, 256, 4096, 65535])
             tl = max(1, min(tl, nblocks - lba)) if nblocks - lba >= 1 else 0
             if tl == 0:
                 continue
@@ -68,6 +70,12 @@ def gen_history(rng):
 
 
 def payload(op_id, idx, bs):
+    """every written block carries (operation id, block index); every 5th operation writes all-zero blocks and every
+    7th all-FF blocks (payload *content* must not matter to the transport)"""
+    if op_id % 5 == 4:
+        return bytes(bs)
+    if op_id % 7 == 6:
+        return b"\xff" * bs
     head = b"OP%08d.BLK%06d." % (op_id, idx)
     return (head * (bs // len(head) + 1))[:bs]
 
@@ -120,6 +128,17 @@ def run_history(ctx, hist, transport, world):
                         shadow[lba + i] = bytes(bs) if ndob else bytes(block)
                         written.add(lba + i)
                     results.append(("writesame", lba, tl, ndob))
+                    if tl > 64:
+                        # probe both ends of a long run right away (16-byte reads work for every LBA)
+                        for pl in (lba, lba + tl - 1, lba + tl):
+                            if pl < nblocks:
+                                got = bytes(s.read16(pl, 1).datain)
+                                want = shadow.get(pl, bytes(bs))
+                                ctx.count("reads_compared")
+                                if got != want:
+                                    ctx.fail("C12:writesame%d_long_run_boundary" % w, "after WRITE SAME(%d) lba=%#x nb=%d block %#x holds %r, expected %r"
+                                             % (w, lba, tl, pl, got[:24], want[:24]), wit)
+                        n_before = tgt.n - 1
                 elif k == "read":
                     cmd = getattr(s, "read%d" % w)(lba, tl, **op["kw"])
                     got = bytes(cmd.datain)
